@@ -1,70 +1,15 @@
-(* C05 groundwork: bytes.Compare is a total order; sort.Search; ordered association lists. *)
+(* C05 groundwork: ordered association lists (Go maps iterated through sorted keys), group_by, the
+   insertion index as a permutation. *)
 From Coq Require Import Sorting.Sorted Sorting.Permutation.
 From GoCar Require Import Bytes Varint Cid Index.
 From GoCarProofs Require Import BytesFacts.
 Ltac Zify.zify_post_hook ::= Z.div_mod_to_equations.
 
-(* ---- bytes_cmp ------------------------------------------------------------------------------- *)
 Lemma b2n_inj x y : b2n x = b2n y -> x = y.
 Proof. intros H. rewrite <- (n2b_b2n x), <- (n2b_b2n y), H. reflexivity. Qed.
 
-Lemma bytes_cmp_refl a : bytes_cmp a a = Eq.
-Proof. induction a as [|x a IH]; cbn [bytes_cmp]; [reflexivity|]. rewrite N.compare_refl. exact IH. Qed.
-
-Lemma bytes_cmp_eq a : forall b, bytes_cmp a b = Eq -> a = b.
-Proof.
-  induction a as [|x a IH]; intros [|y b] H; cbn [bytes_cmp] in H; try discriminate; [reflexivity|].
-  destruct (N.compare_spec (b2n x) (b2n y)) as [E|E|E]; try discriminate.
-  apply b2n_inj in E. subst. f_equal. apply IH. exact H.
-Qed.
-
-Lemma bytes_cmp_antisym a : forall b, bytes_cmp b a = CompOpp (bytes_cmp a b).
-Proof.
-  induction a as [|x a IH]; intros [|y b]; cbn [bytes_cmp]; try reflexivity.
-  rewrite (N.compare_antisym (b2n x) (b2n y)).
-  destruct (b2n x ?= b2n y); cbn [CompOpp]; [apply IH|reflexivity|reflexivity].
-Qed.
-
-Lemma bytes_cmp_trans_le a : forall b c,
-  bytes_cmp a b <> Gt -> bytes_cmp b c <> Gt -> bytes_cmp a c <> Gt.
-Proof.
-  induction a as [|x a IH]; intros b c Hab Hbc.
-  - destruct c; cbn; discriminate.
-  - destruct b as [|y b]; [cbn in Hab; congruence|].
-    destruct c as [|z c]; [cbn in Hbc; congruence|].
-    cbn [bytes_cmp] in *.
-    destruct (N.compare_spec (b2n x) (b2n y)) as [E1|E1|E1]; [| |congruence];
-      destruct (N.compare_spec (b2n y) (b2n z)) as [E2|E2|E2]; try congruence.
-    + rewrite E1, E2, N.compare_refl. eapply IH; eassumption.
-    + replace (b2n x ?= b2n z) with Lt by (symmetry; apply N.compare_lt_iff; lia). discriminate.
-    + replace (b2n x ?= b2n z) with Lt by (symmetry; apply N.compare_lt_iff; lia). discriminate.
-    + replace (b2n x ?= b2n z) with Lt by (symmetry; apply N.compare_lt_iff; lia). discriminate.
-Qed.
-
-Lemma bytes_leb_refl a : bytes_leb a a = true.
-Proof. unfold bytes_leb. rewrite bytes_cmp_refl. reflexivity. Qed.
-Lemma bytes_leb_iff a b : bytes_leb a b = true <-> bytes_cmp a b <> Gt.
-Proof. unfold bytes_leb. destruct (bytes_cmp a b); split; congruence. Qed.
-Lemma bytes_leb_trans a b c : bytes_leb a b = true -> bytes_leb b c = true -> bytes_leb a c = true.
-Proof. rewrite !bytes_leb_iff. apply bytes_cmp_trans_le. Qed.
-Lemma bytes_leb_antisym a b : bytes_leb a b = true -> bytes_leb b a = true -> a = b.
-Proof.
-  rewrite !bytes_leb_iff. intros H1 H2. apply bytes_cmp_eq.
-  rewrite (bytes_cmp_antisym a b) in H2. destruct (bytes_cmp a b); cbn in *; congruence.
-Qed.
-Lemma bytes_ltb_leb a b : bytes_ltb a b = negb (bytes_leb b a).
-Proof.
-  unfold bytes_ltb, bytes_leb. rewrite (bytes_cmp_antisym b a).
-  destruct (bytes_cmp b a); reflexivity.
-Qed.
-Lemma bytes_ltb_false_leb a b : bytes_ltb a b = false -> bytes_leb b a = true.
-Proof. rewrite bytes_ltb_leb. destruct (bytes_leb b a); [reflexivity|discriminate]. Qed.
-Lemma bytes_ltb_true_leb a b : bytes_ltb a b = true -> bytes_leb a b = true.
-Proof. unfold bytes_ltb, bytes_leb. destruct (bytes_cmp a b); congruence. Qed.
-
-(* ---- stable insertion sort by digest ------------------------------------------------------------ *)
-Definition dle (a b : irec) : Prop := bytes_leb (r_digest a) (r_digest b) = true.
-
+(* ---- the insertion index is a permutation of the inserted records ----------------------------------
+   (that it ascends by digest, and what sort.Search does with that, is IndexSort / IndexSearch's subject) *)
 Lemma ins_by_digest_perm r l : Permutation (ins_by_digest r l) (r :: l).
 Proof.
   induction l as [|x t IH]; cbn [ins_by_digest]; [apply Permutation_refl|].
@@ -72,86 +17,19 @@ Proof.
   eapply Permutation_trans; [apply perm_skip; exact IH|apply perm_swap].
 Qed.
 
-Lemma ins_by_digest_sorted r l : StronglySorted dle l -> StronglySorted dle (ins_by_digest r l).
-Proof.
-  induction 1 as [|x t Ht IH Hx]; cbn [ins_by_digest].
-  - constructor; constructor.
-  - destruct (bytes_ltb (r_digest r) (r_digest x)) eqn:E.
-    + constructor; [constructor; assumption|].
-      constructor; [apply bytes_ltb_true_leb; exact E|].
-      rewrite Forall_forall in *. intros y Hy. unfold dle in *.
-      eapply bytes_leb_trans; [apply bytes_ltb_true_leb; exact E|apply Hx; exact Hy].
-    + constructor; [exact IH|].
-      rewrite Forall_forall in *. intros y Hy.
-      apply (Permutation_in _ (ins_by_digest_perm r t)) in Hy. destruct Hy as [<-|Hy].
-      * apply bytes_ltb_false_leb. exact E.
-      * apply Hx. exact Hy.
-Qed.
-
-Lemma sort_by_digest_gen rs : forall acc, StronglySorted dle acc ->
-  StronglySorted dle (fold_left (fun a r => ins_by_digest r a) rs acc) /\
+Lemma sort_by_digest_gen rs : forall acc,
   Permutation (fold_left (fun a r => ins_by_digest r a) rs acc) (acc ++ rs).
 Proof.
-  induction rs as [|r rs IH]; intros acc Hs; cbn [fold_left].
-  - rewrite app_nil_r. split; [exact Hs|apply Permutation_refl].
-  - destruct (IH (ins_by_digest r acc) (ins_by_digest_sorted r acc Hs)) as [H1 H2]. split; [exact H1|].
-    eapply Permutation_trans; [exact H2|].
+  induction rs as [|r rs IH]; intros acc; cbn [fold_left].
+  - rewrite app_nil_r. apply Permutation_refl.
+  - eapply Permutation_trans; [apply IH|].
     eapply Permutation_trans; [apply Permutation_app_tail; apply ins_by_digest_perm|].
     cbn [app]. apply Permutation_middle.
 Qed.
-Lemma sort_by_digest_sorted rs : StronglySorted dle (sort_by_digest rs).
-Proof. apply (sort_by_digest_gen rs []). constructor. Qed.
 Lemma sort_by_digest_perm rs : Permutation (sort_by_digest rs) rs.
-Proof. apply (sort_by_digest_gen rs []). constructor. Qed.
-
-Lemma ii_load_sorted rs : StronglySorted dle (ii_load rs []).
-Proof. apply sort_by_digest_sorted. Qed.
+Proof. apply (sort_by_digest_gen rs []). Qed.
 Lemma ii_load_perm rs : Permutation (ii_load rs []) rs.
 Proof. apply sort_by_digest_perm. Qed.
-
-(* ---- sort.Search --------------------------------------------------------------------------------- *)
-Lemma search_f_spec fuel f : forall i j, i <= j -> j - i < 2 ^ N.of_nat fuel ->
-  (forall a b, i <= a -> a <= b -> b < j -> f a = true -> f b = true) ->
-  i <= search_f fuel f i j <= j /\
-  (forall a, i <= a -> a < search_f fuel f i j -> f a = false) /\
-  (forall a, search_f fuel f i j <= a -> a < j -> f a = true).
-Proof.
-  induction fuel as [|k IH]; intros i j Hij Hsz Hmono; cbn [search_f].
-  - cbn in Hsz. assert (i = j) by lia. subst. repeat split; intros; lia.
-  - destruct (i <? j) eqn:E; [|assert (i = j) by lia; subst; repeat split; intros; lia].
-    rewrite Nnat.Nat2N.inj_succ, N.pow_succ_r' in Hsz.
-    set (h := (i + j) / 2). assert (Hh : i <= h /\ h < j) by (unfold h; lia).
-    destruct (f h) eqn:Fh.
-    + assert (Hsz1 : h - i < 2 ^ N.of_nat k) by (unfold h in *; lia).
-      assert (Hm1 : forall a b, i <= a -> a <= b -> b < h -> f a = true -> f b = true).
-      { intros a b H1 H2 H3 H4. apply (Hmono a b); try assumption. lia. }
-      destruct (IH i h (proj1 Hh) Hsz1 Hm1) as (Hr & Hlo & Hhi).
-      split; [lia|]. split; [exact Hlo|].
-      intros a Ha Haj. destruct (a <? h) eqn:Eah.
-      * apply Hhi; lia.
-      * apply (Hmono h a); try lia. exact Fh.
-    + assert (Hsz1 : j - (h + 1) < 2 ^ N.of_nat k) by (unfold h in *; lia).
-      assert (Hm1 : forall a b, h + 1 <= a -> a <= b -> b < j -> f a = true -> f b = true).
-      { intros a b H1 H2 H3 H4. apply (Hmono a b); try assumption. lia. }
-      assert (Hle : h + 1 <= j) by lia.
-      destruct (IH (h + 1) j Hle Hsz1 Hm1) as (Hr & Hlo & Hhi).
-      split; [lia|]. split; [|exact Hhi].
-      intros a Ha Har. destruct (a <=? h) eqn:Eah.
-      * destruct (f a) eqn:Fa; [|reflexivity].
-        assert (f h = true) by (apply (Hmono a h); try lia; exact Fa). congruence.
-      * apply Hlo; lia.
-Qed.
-
-Lemma sort_search_spec n f : n < 2 ^ 70 ->
-  (forall a b, a <= b -> b < n -> f a = true -> f b = true) ->
-  sort_search n f <= n /\
-  (forall a, a < sort_search n f -> f a = false) /\
-  (forall a, sort_search n f <= a -> a < n -> f a = true).
-Proof.
-  intros Hn Hmono. unfold sort_search.
-  destruct (search_f_spec 70 f 0 n) as (Hr & Hlo & Hhi); [lia|change (N.of_nat 70) with 70; lia|intros; eapply Hmono; eauto|].
-  split; [lia|]. split; [intros; apply Hlo; lia|exact Hhi].
-Qed.
 
 (* ---- ordered association lists ----------------------------------------------------------------------- *)
 Definition keys_asc {A} (m : list (N * A)) : Prop := StronglySorted N.lt (map fst m).
